@@ -1,19 +1,25 @@
 #!/bin/bash
-# C15: both carry-less multipliers. An overlay derived from the CURRENT tree renames the amd64 entry point
-# mul128 -> mul128Asm and adds an in-package dispatcher (tag verif) so that the driver can select the generic
-# implementation at run time and compare the two with its own reference. If the tree no longer has that shape the
-# overlay is skipped (the driver then says in its evidence that only the build's own multiplier ran).
+# C15: an overlay derived from the CURRENT tree with two independent parts, each skipped (and said so in the evidence)
+# if the tree no longer has the shape it needs:
+#  (1) both carry-less multipliers: the amd64 entry point mul128 is renamed mul128Asm and an in-package dispatcher
+#      (tag verif) lets the driver select the generic implementation at run time and compare the two with its own
+#      reference (driver tag verifgeneric);
+#  (2) the challenge coefficients as the code derives them: newPrg is renamed newPrgOrig and a wrapper reports every PRG
+#      key to a harness callback (driver tag verifprg). An attacker knows the code and can compute the coefficients of an
+#      honest run whatever the derivation is; the harness observes them instead of re-deriving them (seed C15-9: a
+#      derivation that is none of the ones the harness knew).
 set -e
 WORK="$1"; HERE="$(cd "$(dirname "$0")" && pwd)"; . "$HERE/lib.sh"
 REPO="${VERIF_REPO:-/repo}"
+mkdir -p "$WORK/ov"
+TAGS="verif"
+overlay_begin "$WORK/ov"
 SRC="$REPO/ot/mul128_amd64.go"
 if [ "$(go env GOARCH)" != amd64 ] || ! grep -q '^func mul128(a, b Label) (Label, Label) {' "$SRC" 2>/dev/null || ! grep -q '^func mul128Generic(a, b Label)' "$REPO/ot/mul128_generic.go" 2>/dev/null; then
   echo "prep c15: ot/mul128_amd64.go has no 'func mul128(a, b Label) (Label, Label)'; generic multiplier not separately exercised" >&2
-  exit 0
-fi
-mkdir -p "$WORK/ov"
-sed 's/^func mul128(a, b Label) (Label, Label) {/func mul128Asm(a, b Label) (Label, Label) {/' "$SRC" > "$WORK/ov/mul128_amd64.go"
-cat > "$WORK/ov/zz_verif_mul128.go" <<'GO'
+else
+  sed 's/^func mul128(a, b Label) (Label, Label) {/func mul128Asm(a, b Label) (Label, Label) {/' "$SRC" > "$WORK/ov/mul128_amd64.go"
+  cat > "$WORK/ov/zz_verif_mul128.go" <<'GO'
 //go:build verif
 
 package ot
@@ -36,8 +42,35 @@ func VerifMul128(generic bool, a, b Label) (Label, Label) {
 	return mul128Asm(a, b)
 }
 GO
-overlay_begin "$WORK/ov"
-overlay_add "$REPO/ot/mul128_amd64.go" "$WORK/ov/mul128_amd64.go"
-overlay_add "$REPO/ot/zz_verif_mul128.go" "$WORK/ov/zz_verif_mul128.go"
+  overlay_add "$REPO/ot/mul128_amd64.go" "$WORK/ov/mul128_amd64.go"
+  overlay_add "$REPO/ot/zz_verif_mul128.go" "$WORK/ov/zz_verif_mul128.go"
+  TAGS="$TAGS,verifgeneric"
+fi
+IK="$REPO/ot/iknp.go"
+if ! grep -q '^func newPrg(key Label) (cipher.Stream, error) {' "$IK" 2>/dev/null; then
+  echo "prep c15: ot/iknp.go has no 'func newPrg(key Label) (cipher.Stream, error)'; challenge coefficients are derived by the harness only" >&2
+else
+  sed 's/^func newPrg(key Label) (cipher.Stream, error) {/func newPrgOrig(key Label) (cipher.Stream, error) {/' "$IK" > "$WORK/ov/iknp.go"
+  cat > "$WORK/ov/zz_verif_prg.go" <<'GO'
+//go:build verif
+
+package ot
+
+import "crypto/cipher"
+
+// VerifPrgHook, if set, is told the key of every PRG the OT extension creates (harness only; overlay file).
+var VerifPrgHook func(key Label)
+
+func newPrg(key Label) (cipher.Stream, error) {
+	if VerifPrgHook != nil {
+		VerifPrgHook(key)
+	}
+	return newPrgOrig(key)
+}
+GO
+  overlay_add "$REPO/ot/iknp.go" "$WORK/ov/iknp.go"
+  overlay_add "$REPO/ot/zz_verif_prg.go" "$WORK/ov/zz_verif_prg.go"
+  TAGS="$TAGS,verifprg"
+fi
 overlay_end
-echo "-tags verif,verifgeneric -overlay $WORK/ov/overlay.json"
+echo "-tags $TAGS -overlay $WORK/ov/overlay.json"
